@@ -333,7 +333,7 @@ func runC09(c *Ctx) {
 			})
 		}
 		scan(ism.Decl.Body, entryP, 0)
-		c.Check(n >= 2 && n == good, "C09-R3", "isMatch:path conditions evaluated on e.Path.Name", ism.Decl.Pos(), itoa(good)+" call(s)", "path conditions are not evaluated against the entry's Path.Name ("+itoa(good)+"/"+itoa(n)+" calls)")
+		c.Check(n >= 1 && n == good, "C09-R3", "isMatch:path conditions evaluated on e.Path.Name", ism.Decl.Pos(), itoa(good)+" call(s)", "path conditions are not evaluated against the entry's Path.Name ("+itoa(good)+"/"+itoa(n)+" calls)")
 	}
 	// isMatch is what GetChecksForEntry and parsedRule.isEnabled use
 	for _, fn := range []string{"internal/config.Config.GetChecksForEntry", "internal/config.parsedRule.isEnabled"} {
